@@ -5,6 +5,8 @@ use std::panic::{catch_unwind, AssertUnwindSafe};
 
 use gluon::vm::verif;
 use gluon::{RootedThread, ThreadExt};
+#[allow(unused_imports)]
+use gluon::vm::thread::ThreadInternal;
 use serde_json::{json, Value};
 
 use crate::common::*;
@@ -78,7 +80,23 @@ pub fn cmd(_args: &[String]) {
             verif::set_stress(stress);
         }
         crate::common::LAST_PANIC_LOC.with(|c| c.borrow_mut().clear());
-        let (status, value, typ, msg) = match mode.as_str() {
+        // modules the program imports: [[name, source], ...] registered with load_script semantics (add_module)
+        let mut module_err = None;
+        if let Some(mods) = job.get("modules").and_then(|v| v.as_array()) {
+            for m in mods {
+                let (name, msrc) = (m[0].as_str().unwrap_or(""), m[1].as_str().unwrap_or(""));
+                let vm = entry.0.clone();
+                let r = catch_unwind(AssertUnwindSafe(|| vm.load_script(name, msrc)));
+                match r {
+                    Ok(Ok(())) => (),
+                    Ok(Err(e)) => module_err = Some(("err".to_string(), format!("module {}: {}", name, e))),
+                    Err(p) => module_err = Some(("panic".to_string(), format!("module {}: {}", name, panic_message(&p)))),
+                }
+            }
+        }
+        let (status, value, typ, msg) = if let Some((st, m)) = module_err {
+            (st, String::new(), String::new(), m)
+        } else { match mode.as_str() {
             // compile to bytecode and return the serialised text
             "compile" => {
                 let vm = entry.0.clone();
@@ -103,7 +121,7 @@ pub fn cmd(_args: &[String]) {
                 }
             }
             _ => run_source(&entry.0, "prog", src, bytecode),
-        };
+        } };
         verif::set_stress(0);
         let log: Vec<i64> = host::take_log().into_iter().filter(|e| e.0 == -2).map(|e| e.2).collect();
         let loc = crate::common::LAST_PANIC_LOC.with(|c| c.borrow().clone());
